@@ -6,10 +6,12 @@ import (
 	"context"
 	"flag"
 	"fmt"
+	"github.com/tikv/client-go/v2/tikvrpc"
 	"io/ioutil"
 	"net/http"
 	"os"
 	"path/filepath"
+	"sync"
 	"sync/atomic"
 	"time"
 
@@ -144,7 +146,7 @@ func OpenEngine(name string, splitKeys ...[]byte) (*EngineHandle, error) {
 			return nil, err
 		}
 		testutils.BootstrapWithMultiRegions(cluster, splitKeys...)
-		st, err := tikv.NewTestTiKVStore(rpcClient, pdClient, nil, nil, 0)
+		st, err := tikv.NewTestTiKVStore(rpcClient, pdClient, func(c tikv.Client) tikv.Client { return &guardedTiKVClient{inner: c} }, nil, 0)
 		if err != nil {
 			return nil, err
 		}
@@ -165,6 +167,37 @@ func OpenEngine(name string, splitKeys ...[]byte) (*EngineHandle, error) {
 
 func imetricsNew(kv storage.KvStorage) storage.KvStorage {
 	return imetrics.NewKvStorage(kv, NopMetrics)
+}
+
+// guardedTiKVClient sits between the TiKV client and the mock cluster. The TiKV client resolves leftover transaction
+// locks on goroutines of its own (a reader that meets the lock of a transaction whose secondary keys are still being
+// committed starts one); a request of such a goroutine that reaches the mock after its store was closed crashes inside
+// the mock (nil dereference in its closed leveldb). Close waits for requests in flight and later ones get an error.
+type guardedTiKVClient struct {
+	inner  tikv.Client
+	mu     sync.RWMutex
+	closed bool
+}
+
+// SendRequest implements tikv.Client
+func (g *guardedTiKVClient) SendRequest(ctx context.Context, addr string, req *tikvrpc.Request, timeout time.Duration) (*tikvrpc.Response, error) {
+	g.mu.RLock()
+	defer g.mu.RUnlock()
+	if g.closed {
+		return nil, fmt.Errorf("mock cluster closed")
+	}
+	return g.inner.SendRequest(ctx, addr, req, timeout)
+}
+
+// Close implements tikv.Client
+func (g *guardedTiKVClient) Close() error {
+	g.mu.Lock()
+	defer g.mu.Unlock()
+	if g.closed {
+		return nil
+	}
+	g.closed = true
+	return g.inner.Close()
 }
 
 // OpenBadgerAt opens (or re-opens) a Badger store in dir
